@@ -206,6 +206,17 @@ class Charge:
             charge_pos_hor, self._geo.pixel_horz_size
         ).astype(int)
 
+        # Ignore the charges located outside the detector
+        is_inside = (
+            (pixel_index_ver >= 0)
+            & (pixel_index_ver < self._geo.row)
+            & (pixel_index_hor >= 0)
+            & (pixel_index_hor < self._geo.col)
+        )
+        charge_per_pixel = charge_per_pixel[is_inside]
+        pixel_index_ver = pixel_index_ver[is_inside]
+        pixel_index_hor = pixel_index_hor[is_inside]
+
         # Changing = to += since charge dataframe is reset, the pixel array need to be
         # incremented, we can't do the whole operation on each iteration
         return df_to_array(
